@@ -1,25 +1,35 @@
 ----------------------------- MODULE MC_Crash -----------------------------
-(* every write path the grammar of git-bug's commit / merge code can produce (up to MaxPacks packs, with or without a
-   leading read that witnesses clocks) crossed with every crash point: with atomic clock writes every crash leaves the
-   old or the new state and a complete clock file; with in-place writes (AtomicWrite = FALSE) TLC exhibits the torn file. *)
+(* every write path the grammar of git-bug's commit / merge / pull code can produce (up to MaxPacks packs per entity, one
+   or two entities per call, with or without reads that witness clocks) crossed with every crash point: with atomic clock
+   writes and one ref update per entity every crash leaves each entity in its old or its new state and a complete clock
+   file.  Witnesses: with in-place writes (AtomicWrite = FALSE) TLC exhibits the torn file; with a ref update after every
+   pack (RefPerPack = TRUE) it exhibits the mixed entity. *)
 EXTENDS Crash, TLC
-CONSTANTS MaxPacks, AtomicWrite
+CONSTANTS MaxPacks, AtomicWrite, RefPerPack
 VARIABLES muts, k, phase
 
-ClockWrite == IF AtomicWrite THEN <<"fs-rename">> ELSE <<"fs-open-trunc", "fs-write", "fs-close">>
-Pack(first) == ClockWrite \o (IF first THEN ClockWrite ELSE <<>>) \o <<"blob", "blob", "tree", "commit">>
-RECURSIVE Packs(_, _)
-Packs(n, first) == IF n = 0 THEN <<>> ELSE Pack(first) \o Packs(n - 1, FALSE)
+M(kind) == [kind |-> kind, ent |-> ""]
+R(e) == [kind |-> "ref", ent |-> e]
+ClockWrite == IF AtomicWrite THEN <<M("fs-rename")>> ELSE <<M("fs-open-trunc"), M("fs-write"), M("fs-close")>>
+Pack(first, e) == ClockWrite \o (IF first THEN ClockWrite ELSE <<>>) \o <<M("blob"), M("blob"), M("tree"), M("commit")>>
+                  \o (IF RefPerPack THEN <<R(e)>> ELSE <<>>)
+RECURSIVE Packs(_, _, _)
+Packs(n, first, e) == IF n = 0 THEN <<>> ELSE Pack(first, e) \o Packs(n - 1, FALSE, e)
 Reads(n) == [i \in 1..(n * Len(ClockWrite)) |-> ClockWrite[((i - 1) % Len(ClockWrite)) + 1]]
+Seg(r, p, new, e) == Reads(r) \o Packs(p, new, e) \o (IF RefPerPack THEN <<>> ELSE <<R(e)>>)
+Remove(e, ntrack) == [i \in 1..ntrack |-> [kind |-> "rmtrack", ent |-> e]] \o <<[kind |-> "rmref", ent |-> e]>>
 
-Paths == {Reads(r) \o Packs(p, new) \o <<"ref">> \o Reads(post) : r \in 0..2, p \in 1..MaxPacks, new \in BOOLEAN, post \in 0..1}
+Paths == {Seg(r, p, new, "e1") \o Reads(post) : r \in 0..2, p \in 1..MaxPacks, new \in BOOLEAN, post \in 0..1}
+         \cup {Seg(r, p, new, "e1") \o Seg(r2, p2, new2, "e2") \o Reads(post) :
+                 r \in 0..1, p \in 1..MaxPacks, new \in BOOLEAN, r2 \in 0..1, p2 \in 1..2, new2 \in BOOLEAN, post \in 0..1}
          \cup {Reads(r) : r \in 1..2}
+         \cup {Remove("e1", t) : t \in 0..2}
 
 Init == muts \in Paths /\ k = 0 /\ phase = "run"
 Next == /\ phase = "run" /\ k' \in 1..(Len(muts) + 1) /\ phase' = "crashed" /\ UNCHANGED muts
 Spec == Init /\ [][Next]_<<muts, k, phase>>
 
-PathsWellFormed == AtomicWrite => WellFormed(muts)
-CrashAtomic == phase = "crashed" => Expected(muts, k) \in {"pre", "post"}
+PathsWellFormed == (AtomicWrite /\ ~RefPerPack) => WellFormed(muts)
+CrashAtomic == phase = "crashed" => \A e \in {"e1", "e2"} : Expected(muts, k, e) \in {"unchanged", "pre", "post"}
 ClockNeverTorn == phase = "crashed" => ClockFile(muts, k, "ok") = "ok"
 =============================================================================
